@@ -102,7 +102,6 @@ func init() {
 		"sort.Ints":                           ext۰sort۰Ints,
 		"sort.Strings":                        ext۰sort۰Strings,
 		"strconv.Atoi":                        ext۰strconv۰Atoi,
-		"strconv.Itoa":                        ext۰strconv۰Itoa,
 		"strconv.FormatFloat":                 ext۰strconv۰FormatFloat,
 		"strings.EqualFold":                   ext۰strings۰EqualFold,
 		"strings.Index":                       ext۰strings۰Index,
